@@ -394,6 +394,46 @@ def lw_owner(ctx):
             out.append(ok('LW-owner', key, 'waker stored %s' % ('while the queue is still owned' if 'H' in Ts else 'by a task that does not own the queue (check-and-register under the result lock: LW1)'), fn=fname))
     if m < 2:
         out.append(undecided('LW-owner', 'floor:stores', 'found %d functions storing a waker in a scheduler future result, expected 2' % m))
+    # ... and the owner's "no result yet" is still true when it stores its waker unconditionally: it was established while owning the queue.
+    # Either (A) poll() reads the result and claims the queue under one hold of the result lock (nobody can signal in between: signals come
+    # from jobs of this queue, and from the claim on the poller is the only runner), or (B) drain_queue() looks at the result itself before
+    # every unconditional store.  One of the two is enough; with neither, a pool thread can finish the operation between poll()'s test and
+    # its claim, the poller then parks on an empty queue with a waker nobody will ever wake.
+    pf = F.fn('<desync::SchedulerFuture as core::future::future::Future>::poll')
+    dq = F.fn('desync::SchedulerFuture::drain_queue')
+    key = 'SchedulerFuture|owner-tests-the-result-while-owning'
+    if pf and dq:
+        RES = 'desync::SchedulerFutureResult'
+        JQC_ = 'desync::JobQueueCore'
+        ud = FieldUse(dq, RES)
+        stores = set(bb for (bb, i, v) in ud.assigns.get('waker', []) if v[0] == 'agg' and v[2].endswith('Option::Some'))
+        tests = set(bb for (bb, i) in ud.reads.get('result', [])) | set(bb for (bb, m_, t_) in ud.calls.get('result', [])) | \
+            set(bb for bb, t_ in dq.calls() if (t_['func'].get('fn') or '').endswith('FutureResultState::take') and not dq.blocks[bb]['cleanup'])
+        from .ordq import feasible_reach
+        cond_b = bool(stores) and bool(tests) and (dq.must_pass(0, stores, tests) or not feasible_reach(dq, 0, stores, tests))
+        up = FieldUse(pf, JQC_)
+        ur = FieldUse(pf, RES)
+        acq = [(bb, i) for (bb, i, v) in up.assigns.get('state', []) if v[0] == 'agg' and v[2].endswith('QueueState::Running')]
+        reads = [(bb, i) for (bb, i) in ur.reads.get('result', [])] + [(bb, len(pf.blocks[bb]['stmts'])) for (bb, m_, t_) in ur.calls.get('result', [])] + \
+            [(bb, len(pf.blocks[bb]['stmts'])) for bb, t_ in pf.calls() if (t_['func'].get('fn') or '').endswith('FutureResultState::take') and not pf.blocks[bb]['cleanup']]
+        dom = pf.dominators()
+        cond_a = bool(acq) and bool(reads)
+        for (bb, i) in acq:
+            gw = _guards_at(ctx, pf, 'SchedulerFuture.result', bb, i)
+            okw = False
+            for (rb, ri) in reads:
+                gr = _guards_at(ctx, pf, 'SchedulerFuture.result', rb, ri if ri < len(pf.blocks[rb]['stmts']) else 'term')
+                if gw and (gw & gr) and _before(pf, dom, (rb, min(ri, len(pf.blocks[rb]['stmts']))), (bb, i)):
+                    okw = True
+            if not okw:
+                cond_a = False
+        if not stores or not acq:
+            out.append(undecided('LW-owner', key, 'the unconditional waker stores of drain_queue or the claims of poll were not recognised (%d / %d)' % (len(stores), len(acq))))
+        elif cond_a or cond_b:
+            out.append(ok('LW-owner', key, 'the result is %s' % ('read and the queue claimed under one hold of the result lock in poll()' + (', and re-read by drain_queue before every unconditional store' if cond_b else '') if cond_a else 're-read by drain_queue before every unconditional store'), fn=dq.name))
+        else:
+            out.append(bad('LW-owner', key, 'poll() tests the result and claims the queue in separate critical sections, and drain_queue() can store its waker and answer Pending without looking at the result again: '
+                           'a pool thread that finishes the operation between the test and the claim has already signalled, the poller parks on an empty queue and the awaiting task is never woken', fn=dq.name))
     return out
 
 
